@@ -34,6 +34,7 @@ None == <<"n", 0>>
 B(b) == <<"b", IF b THEN 1 ELSE 0>>
 L(xs) == <<"l", xs>>
 TS == <<"t", 0>>                         \* pandas.Timestamp("2020-01-01")
+TD == <<"d", 1>>                         \* pandas.Timedelta(days=1)
 
 (* a built-in check: name, statistics (sequence of <<argument name, value>>), options *)
 Chk(k, st) == [k |-> k, st |-> st, ina |-> TRUE, nfc |-> 0, warn |-> FALSE]
@@ -55,6 +56,7 @@ STRLEN(a, b) == Chk("str_length", << <<"min_value", a>>, <<"max_value", b>> >>)
 
 UVE(xs) == Chk("unique_values_eq", << <<"values", L(xs)>> >>)
 GETS == Chk("greater_than_or_equal_to", << <<"min_value", TS>> >>)
+GETD == Chk("greater_than_or_equal_to", << <<"min_value", TD>> >>)
 LETS == Chk("less_than_or_equal_to", << <<"max_value", TS>> >>)
 CheckSeqs ==
   { <<GE(0)>>, <<LE(5)>>, <<GT(0)>>, <<LT(9)>>, <<EQ(I(1))>>, <<NE(I(1))>>, <<EQ(S("x"))>>, <<ISIN(<<I(1), I(2)>>)>>,
@@ -76,7 +78,7 @@ Base == [cols |-> <<Col("a", "int64"), Col("b", "str")>>, index |-> <<>>, checks
          coerce |-> FALSE, strict |-> "F", name |-> "none", ordered |-> FALSE, unique |-> <<>>, report |-> "all",
          ucn |-> FALSE, amc |-> FALSE, title |-> "none", desc |-> "none"]
 
-Dtypes == {"float64", "str", "bool", "datetime64[ns]", "Int64", "object", "int8", "category", "timedelta64[ns]", "none"}
+Dtypes == {"float64", "str", "bool", "datetime64[ns]", "Int64", "object", "int8", "category", "none"}
 IndexChoices ==
   { <<Lvl("none", "int64")>>, <<Lvl("i", "int64")>>, <<[Lvl("i", "int64") EXCEPT !.unique = TRUE]>>,
     <<[Lvl("i", "str") EXCEPT !.nullable = TRUE, !.coerce = TRUE]>>,
@@ -86,7 +88,7 @@ IndexChoices ==
 (* a modification: the attribute it sets (at) and the value; Vals(at) is homogeneous *)
 Ats == {"a.dtype", "a.nullable", "a.unique", "a.coerce", "a.regex", "coerce", "ordered", "ucn", "amc", "a.required",
         "a.title", "a.desc", "title", "desc", "name", "a.checks", "a.key", "index", "checks", "dtype", "strict",
-        "unique", "report", "cols", "a.datetime"}
+        "unique", "report", "cols", "a.datetime", "a.timedelta"}
 Vals(at) ==
   CASE at = "a.dtype" -> Dtypes
     [] at \in {"a.nullable", "a.unique", "a.coerce", "a.regex", "coerce", "ordered", "ucn", "amc"} -> {TRUE}
@@ -101,6 +103,7 @@ Vals(at) ==
     [] at = "unique" -> {<<"a">>, <<"a", "b">>}
     [] at = "report" -> {"exclude_first", "exclude_last"}
     [] at = "cols" -> {"drop_b", "swap"}
+    [] at = "a.timedelta" -> {<<GETD>>}                        \* a timedelta column with a Timedelta statistic
     [] at = "a.datetime" -> {<<GETS>>, <<GETS, LETS>>}       \* a datetime column with a Timestamp statistic
 
 SetA(Sc, f(_)) == [Sc EXCEPT !.cols = [i \in 1..Len(@) |-> IF i = 1 THEN f(@[i]) ELSE @[i]]]
@@ -129,6 +132,7 @@ Apply(Sc, at, v) ==
     [] at = "title"      -> [Sc EXCEPT !.title = v]
     [] at = "desc"       -> [Sc EXCEPT !.desc = v]
     [] at = "a.datetime" -> SetA(Sc, LAMBDA c : [c EXCEPT !.dtype = "datetime64[ns]", !.checks = v])
+    [] at = "a.timedelta" -> SetA(Sc, LAMBDA c : [c EXCEPT !.dtype = "timedelta64[ns]", !.checks = v])
     [] at = "cols"       -> IF v = "drop_b" THEN [Sc EXCEPT !.cols = <<@[1]>>] ELSE [Sc EXCEPT !.cols = <<@[2], @[1]>>]
 
 ---------------------------------------------------------------------------
